@@ -148,6 +148,9 @@ class AnsiSetting:
         for val in self._str.split(ansi_sep):
             val = val.strip()
             try:
+                # Only plain digits form a code; int() would also accept signs and underscores
+                if not val.isdigit():
+                    raise ValueError()
                 val_int = int(val)
             except ValueError:
                 val_list.append(val)
